@@ -329,6 +329,23 @@ def PStore.reads (p : PStore) : PStore × Reads :=
           termLo := lo
           terms := allOk ((List.range (hi + 1 - lo)).map (fun k => d.termGo (lo + k))) })
 
+/-- A reader's first meta access (`ensureMeta` via FirstIndex/LastIndex/InitialState/Term) racing with
+    the scope's first `Save`: the reader took its Pebble snapshot and found no log meta, the Save then
+    commits entries + meta through the write worker, and the reader finally persists the meta it
+    computed from its OLD snapshot with a direct `db.Set` (`persistMeta` bypasses the worker and its
+    cache) — overwriting the Save's meta.  Not a Raft-valid single-writer history; modelled so that
+    the finding replays. -/
+def PStore.firstReadRace (p : PStore) (ents : List Entry) : Except Err PStore :=
+  let pre := p.d
+  match p.save none none ents with
+  | .error e => .error e
+  | .ok p' =>
+    if pre.logMeta.isNone ∧ !viewErr pre then
+      match updateLogMeta { applied := pre.appliedKey } 0 0 Conf.zero pre.entries pre.hard.commit with
+      | some m => .ok { p' with d := { p'.d with logMeta := some m } }
+      | none => .ok p'
+    else .ok p'
+
 /-! ### operations (what the driver executes and the theorems quantify over) -/
 
 inductive Op where
@@ -380,5 +397,55 @@ def validRun : RaftStore → List Op → Bool
 
 def runM (m : RaftStore) (ops : List Op) : RaftStore := ops.foldl stepM m
 def runP (p : PStore) (ops : List Op) : PStore := ops.foldl stepP p
+
+
+
+/-! ### snapshot publish-then-commit (pebble_store.go Save / publishSnapshotAndCommit,
+    snapshot_store.go write / publishFinal, snapshot_gc.go) under process kill -/
+
+/-- external snapshot directories and the Pebble manifest key of one scope -/
+structure SnapFS where
+  dirs : List (Nat × Bytes) := []      -- published (final) directories: snapshot id ↦ payload
+  tmp : List (Nat × Bytes) := []       -- `.tmp-<id>` staging directories
+  manifest : Option Nat := none        -- the snapshot id the durable manifest names
+deriving Repr
+
+inductive PStep where
+  | writeTmp (id : Nat) (data : Bytes)   -- snapshotStore.write: mkdir tmp, chunks, fsyncs
+  | publish (id : Nat)                   -- publishFinal: renameNoOverwrite tmp → final, fsync dir
+  | commit (id : Nat)                    -- submitWrite: one synced Pebble batch sets the manifest
+  | gc (active : Option Nat)             -- a snapshot GC pass; `active` = the id a running Save protects
+deriving Repr
+
+def pstep (fs : SnapFS) : PStep → SnapFS
+  | .writeTmp id data => { fs with tmp := (id, data) :: fs.tmp }
+  | .publish id =>
+    match fs.tmp.lookup id, fs.dirs.lookup id with
+    | some data, none => { fs with dirs := (id, data) :: fs.dirs, tmp := fs.tmp.filter (fun p => p.1 != id) }
+    | _, _ => fs
+  | .commit id => { fs with manifest := some id }
+  | .gc active =>
+    { fs with dirs := fs.dirs.filter (fun p => some p.1 == fs.manifest || some p.1 == active),
+              tmp := fs.tmp.filter (fun p => some p.1 == active) }
+
+/-- what a reader needs: the manifest never names a directory that is not there -/
+def SnapFS.sound (fs : SnapFS) : Prop :=
+  match fs.manifest with
+  | none => True
+  | some id => (fs.dirs.lookup id).isSome
+
+/-- the three effects of a Save that carries a snapshot, in the code's order -/
+def savePlan (id : Nat) (data : Bytes) : List PStep := [.writeTmp id data, .publish id, .commit id]
+
+/-- run the first `k` steps of the plan (the process is killed after them), a GC pass of the
+    running process (protecting the in-flight id) before each step where `gcs` says so -/
+def runPlan (fs : SnapFS) (id : Nat) : List PStep → List Bool → SnapFS
+  | [], _ => fs
+  | s :: ss, g :: gs => runPlan (pstep (if g then pstep fs (.gc (some id)) else fs) s) id ss gs
+  | s :: ss, [] => runPlan (pstep fs s) id ss []
+
+/-- the process after the kill: optionally a GC pass of the restarted process, nothing protected -/
+def afterCrash (fs : SnapFS) (restartGC : Bool) : SnapFS := if restartGC then pstep fs (.gc none) else fs
+
 
 end WK.C14
